@@ -88,6 +88,10 @@ impl SvcShared {
     pub fn live_clones(&self, node: usize) -> i64 {
         *self.live_by_node.lock().unwrap().get(&node).unwrap_or(&0)
     }
+    /// close a released gate again (later requests wait again)
+    pub fn rearm(&self, gate: &str) {
+        self.gates.lock().unwrap().remove(gate);
+    }
     pub fn started(&self, id: &str) -> usize {
         self.events
             .lock()
@@ -424,6 +428,23 @@ impl Sim {
             .lock()
             .unwrap()
             .insert(n.peer_id(), format!("n{node}"));
+        Ok(n)
+    }
+
+    /// Like `start`, but the user service admits at most `limit` requests at a time (its
+    /// `poll_ready` is pending while it is full).
+    pub fn start_limited(&self, spec: &NodeSpec, limit: usize) -> anyhow::Result<Network> {
+        let node = self.fabric.nodes();
+        let svc = tower::limit::ConcurrencyLimit::new(HarnessSvc::new(node, self.svc.clone()), limit);
+        let mut b = Network::bind("127.0.0.1:0")
+            .private_key(key_bytes(spec.key))
+            .server_name(spec.name.clone())
+            .config(spec.config.clone());
+        if let Some(a) = &spec.alt {
+            b = b.alternate_server_name(a.clone());
+        }
+        let n = b.start(svc)?;
+        self.labels.lock().unwrap().insert(n.peer_id(), format!("n{node}"));
         Ok(n)
     }
 
